@@ -293,7 +293,13 @@ def run_case(case):
             for seq in itertools.product("IE", repeat=3):
                 v = pf.CellVariable(g.mesh, old0.copy(), make_bc(g, setup))
                 dt = 2.0 ** -8
-                for step in seq:
+                for si, step in enumerate(seq):
+                    # time-dependent boundary data: the data of every non-periodic side change before each step
+                    for ax in range(g.d):
+                        for side in U.SIDES[ax]:
+                            bf = getattr(v.BCs, side)
+                            if not bf.periodic and np.asarray(bf._c).size:
+                                bf.c = np.array(bf._c) * 1.25 + 0.125 * (si + 1)
                     oldv = np.asarray(v.value, dtype=float).copy()
                     res["evals"] += 1
                     if step == "I":
